@@ -30,6 +30,25 @@ def ranges():
     return ops
 
 
+def edge_values(open_line):
+    """string values at the edges of the domain - empty, one byte (also NUL), CR LF, counters, > 4 KiB - written, then
+    read by every reading command of the family before and after the value has been evicted and re-read from the
+    storage backend (three eviction passes) and after Close + Open: a value comes back byte for byte, an empty
+    value stays an empty value (not a missing key)"""
+    e = "-"
+    keys = {"7630": e, "7631": "00", "7632": "0d0a", "7633": "30", "7634": "2d39323233333732303336383534373735383038", "7635": "r5000x61", "7636": "ff00fe"}
+    ops = [open_line] + [f"api Set {k} {v} 0" for k, v in keys.items()]
+    ops += [f"api Append 7637 {e}", f"api SetRange 7638 0 {e}", f"api SetNX 7639 {e} 0", f"api MSet 763a {e} 763b 00", f"api GetSet 763c {e}", f"api GetSet 763c {e}"]
+    allk = list(keys) + ["7637", "7638", "7639", "763a", "763b", "763c"]
+    reads = []
+    for k in allk:
+        reads += [f"api Get {k}", f"api StrLen {k}", f"api GetRange {k} 0 -1", f"api Exists {k}", f"api Type {k}", f"api GetBit {k} 0", f"api BitCount {k} 0 0 0"]
+    reads += ["api Keys 2a", "api Exists " + " ".join(allk), f"api SetNX 7630 78 0", f"api Append 7630 {e}", "api Get 7630", "api Incr 7633", "api DecrBy 7633 1",
+              "api Incr 7630", "api Set 7630 - 0", "api Rename 7631 7631", "dump"]
+    ops += reads + ["gc", "gc", "gc"] + reads + ["ldump", "close", "reopen", "ldump"] + reads + ["gc", "gc", "gc"] + reads
+    return ops
+
+
 def multi_reads():
     """every reading command of the family queued after writes inside MULTI: it must see the state at EXEC
     time (after the queued writes and after another client's write between queueing and EXEC), not the
@@ -56,7 +75,9 @@ def run(ctx, proofs_ok):
          "events": {"gc": 0.08, "flush": 0.03, "reopen": 0.02, "sleep": 0.03}},
         {"label": "string/keyspace streams on Pebble with eviction and reopen", "fams": ["str", "str", "key"],
          "n": (600, 3000), "count": (1, 6), "backend": "pebble", "events": {"gc": 0.08, "flush": 0.03, "reopen": 0.02}},
-    ], extra=[("exhaustive GETRANGE / BITCOUNT / GETBIT windows and SETRANGE / SETBIT offsets on short strings", ranges(), False)])
+    ], extra=[("exhaustive GETRANGE / BITCOUNT / GETBIT windows and SETRANGE / SETBIT offsets on short strings", ranges(), False),
+              ("string values at the edges of the domain through eviction, reload and reopen (memory)", edge_values("open a mem"), False),
+              ("string values at the edges of the domain through eviction, reload and reopen (Pebble)", edge_values(f"open a pebble {ctx.work}/pebble-edge"), False)])
     if ctx.violations:
         return
     apicheck.run_resp_streams(ctx, [
